@@ -294,7 +294,13 @@ def run_task(task):
 
     def fn(eng):
         def pick(k, n):
-            return builtins.int(eng.fresh_int('op%d' % k, 0, n - 1))
+            v = builtins.int(eng.fresh_int('op%d' % k, 0, n - 1))
+            if v >= n:
+                # AsmConstraint objects hash by identity: the iteration order of a bto set, hence the list of applicable
+                # operations, can differ between two executions of the same prefix.  Never a crash, never a verdict.
+                from vf.symx import Inconclusive
+                raise Inconclusive("re-execution of the history prefix diverged (identity-hashed constraint sets)")
+            return v
         prob, log, nt = run_history(desc, pick, task.get('bug'))
         if nt:
             nontriv[0] += 1
